@@ -120,3 +120,16 @@ Theorem c01_get_on_a_reachable_world_is_checked :
     ~ is_ub (op_get e ktag (fold_left (run_top_all beh) ops (world0 fuel p))).
 Proof. exact reachable_get_ok. Qed.
 Print Assumptions c01_get_on_a_reachable_world_is_checked.
+
+(* ---------- the unchecked operations of src/sparse_map.rs (get_unchecked*, assume_unchecked) ---------- *)
+Require Import EV.SparseMap.
+(* each is a UB site of coq/SparseMap.v; under the invariant - which holds after every operation sequence from the
+   empty map - insert, remove and get return a value (or the documented panic for K::MAX as key), never UB *)
+Theorem c01_sparse_map_never_reaches_an_unchecked_failure :
+  forall (V : Type) (m : spm V), SpInv m ->
+    (forall k, sp_get m k = Val (sp_abs m k)) /\
+    (forall k v, k <> U32MAX -> (nlen (sp_dense m) + 1 < U32MAX)%N -> exists m', sp_insert m k v = Val (sp_abs m k, m') /\ SpInv m') /\
+    (forall k, exists m', sp_remove m k = Val (sp_abs m k, m') /\ SpInv m') /\
+    SpInv (sp_shrink m).
+Proof. exact @sp_never_ub. Qed.
+Print Assumptions c01_sparse_map_never_reaches_an_unchecked_failure.
